@@ -94,4 +94,41 @@ theorem lowerRefV_eq (m : POMDP) (hA : 0 < m.A) (c : Nat → Rat) (j k : Nat) (x
   unfold dotS
   exact sumTo_congr (fun s hs => by rw [blindIterV_get m i j (c i) s hs])
 
+/-! ### the driver's `Refs` wrapper -/
+
+/-- `Refs.U` of `mkRefs m j budget` is the member `upperRef (Rmax/(1-γ)) j (depthFor m budget)` of the upper family -/
+theorem Refs_U_eq (m : POMDP) (j budget : Nat) (x : Vec) :
+    (mkRefs m j budget).U x = upperRef m (maxRall m / (1 - m.γ)) j (depthFor m budget) x.get := by
+  rw [← upperRefV_eq]; rfl
+
+/-- `Refs.L` of `mkRefs m j budget` is the member `lowerRef (min R_a/(1-γ))_a j (depthFor m budget)` of the lower family -/
+theorem Refs_L_eq (m : POMDP) (hA : 0 < m.A) (j budget : Nat) (x : Vec) :
+    (mkRefs m j budget).L x = lowerRef m (fun a => minRa m a / (1 - m.γ)) j (depthFor m budget) x.get := by
+  rw [← lowerRefV_eq m hA]; rfl
+
+/-- the two start constants `mkRefs` uses satisfy the side conditions of the families -/
+theorem refs_cU_safe (m : POMDP) (hv : Valid m) : ∀ s, s < m.S → ∀ a, a < m.A → m.R s a ≤ (1 - m.γ) * (maxRall m / (1 - m.γ)) := by
+  intro s hs a ha
+  have h1 : 0 < 1 - m.γ := by have := hv.γ1; linarith
+  rw [mul_div_cancel₀ _ (ne_of_gt h1)]
+  unfold maxRall
+  exact le_trans (maxTo_ge (m.A - 1) (m.R s) a (by omega)) (maxTo_ge (m.S - 1) (fun s => maxTo (m.A - 1) (m.R s)) s (by omega))
+
+theorem refs_cL_safe (m : POMDP) (hv : Valid m) : ∀ a, a < m.A → ∀ s, s < m.S → (1 - m.γ) * (minRa m a / (1 - m.γ)) ≤ m.R s a := by
+  intro a _ s hs
+  have h1 : 0 < 1 - m.γ := by have := hv.γ1; linarith
+  rw [mul_div_cancel₀ _ (ne_of_gt h1)]
+  exact minTo_le (m.S - 1) (fun s => m.R s a) s (by omega)
+
+/-- what the driver compares lower bounds with is a super-solution of the belief MDP; what it compares upper bounds with is a
+    sublinear sub-solution — for every POMDP, every `j`, every budget -/
+theorem Refs_U_superSol (m : POMDP) (hv : Valid m) (j budget : Nat) :
+    SuperSol m (upperRef m (maxRall m / (1 - m.γ)) j (depthFor m budget)) :=
+  upperRef_superSol m hv _ (refs_cU_safe m hv) j _
+
+theorem Refs_L_subSol (m : POMDP) (hv : Valid m) (j budget : Nat) :
+    Sublin m.S (lowerRef m (fun a => minRa m a / (1 - m.γ)) j (depthFor m budget)) ∧
+    SubSol m (lowerRef m (fun a => minRa m a / (1 - m.γ)) j (depthFor m budget)) :=
+  ⟨lowerRef_sublin m hv _ j _, lowerRef_subSol m hv _ (refs_cL_safe m hv) j _⟩
+
 end AITB.POMDP3
